@@ -20,6 +20,7 @@ class DerivedMesh:
     kwargs: Dict[str, ast.expr]
     escapes: bool
     verdict: Dict[str, str]        # field -> ok reason / "INHERITED"
+    escapes_field: Dict[str, bool] = None
 
 
 def _assigned(fn: FuncInfo, name: str) -> List[ast.AST]:
@@ -35,10 +36,12 @@ def _assigned(fn: FuncInfo, name: str) -> List[ast.AST]:
     return out
 
 
-def _escapes(fn: FuncInfo, call: ast.Call) -> bool:
+def _escapes(fn: FuncInfo, call: ast.Call, field: Optional[str] = None) -> bool:
     """does the derived mesh leave the function (returned directly, or via
     a name that is returned / used as the base of another derived mesh
-    that escapes)?"""
+    that escapes)?  With ``field``: does the value this mesh holds in that
+    field leave the function - a further ``replace`` that sets the field
+    itself stops the flow."""
     parents = {}
     for n in ast.walk(fn.node):
         for c in ast.iter_child_nodes(n):
@@ -57,13 +60,25 @@ def _escapes(fn: FuncInfo, call: ast.Call) -> bool:
         return True        # used in an expression we do not follow: assume
     for n in walk_no_nested(fn.node):
         if isinstance(n, ast.Return) and n.value is not None:
+            stopped = set()
+            if field is not None:
+                for c in ast.walk(n.value):
+                    if isinstance(c, ast.Call) and isinstance(
+                            c.func, ast.Name) and c.func.id == "replace" \
+                            and c.args and any(k.arg == field
+                                               for k in c.keywords):
+                        stopped.add(id(c.args[0]))
             for x in ast.walk(n.value):
-                if isinstance(x, ast.Name) and x.id in names:
+                if isinstance(x, ast.Name) and x.id in names and \
+                        id(x) not in stopped:
                     return True
         if isinstance(n, ast.Call) and isinstance(n.func, ast.Name) and \
                 n.func.id == "replace" and n is not call and n.args and \
                 isinstance(n.args[0], ast.Name) and n.args[0].id in names:
-            if _escapes(fn, n):
+            if field is not None and any(k.arg == field
+                                         for k in n.keywords):
+                continue
+            if _escapes(fn, n, field):
                 return True
         if isinstance(n, ast.Assign) and isinstance(n.value, ast.Name) and \
                 n.value.id in names:
@@ -73,10 +88,47 @@ def _escapes(fn: FuncInfo, call: ast.Call) -> bool:
     return False
 
 
+def _rows(e, nrows=6):
+    """explicit row list of a constant row selector (int or slice)"""
+    rng = list(range(nrows))
+    if isinstance(e, ast.Constant) and isinstance(e.value, int):
+        return [rng[e.value]]
+    if isinstance(e, ast.UnaryOp) and isinstance(e.op, ast.USub) and \
+            isinstance(e.operand, ast.Constant):
+        return [rng[-e.operand.value]]
+    if isinstance(e, ast.Slice):
+        def c(x):
+            if x is None:
+                return None
+            if isinstance(x, ast.Constant) and isinstance(x.value, int):
+                return x.value
+            if isinstance(x, ast.UnaryOp) and isinstance(x.op, ast.USub) \
+                    and isinstance(x.operand, ast.Constant):
+                return -x.operand.value
+            raise ValueError
+        try:
+            lo, hi, st = c(e.lower), c(e.upper), c(e.step)
+        except ValueError:
+            return None
+        # selectors reaching the (unknown) last row depend on the number
+        # of rows: only prefixes / reversed prefixes are row-count free
+        if (st is None or st > 0) and hi is None:
+            return None
+        if st is not None and st < 0 and lo is None:
+            return None
+        if any(v is not None and v < 0 for v in (lo, hi)):
+            return None
+        return rng[slice(lo, hi, st)]
+    return None
+
+
 def _within_cell_permutation(fn: FuncInfo, tval: ast.expr) -> Optional[str]:
-    """t is a copy of self.t whose only stores exchange rows under one
-    column selector (or a sort along axis 0): cell and facet indices keep
-    their meaning."""
+    """t is (a copy of) self.t whose only stores move whole rows under a
+    column selector, every value coming from the same columns, and the net
+    effect under each selector is a permutation of the rows (or t is sorted
+    along axis 0): vertices are reordered within cells, so cell indices and
+    the facet numbering (a function of the vertex sets) keep their
+    meaning."""
     if isinstance(tval, ast.Call) and src(tval.func) == "np.sort" and any(
             k.arg == "axis" and src(k.value) == "0" for k in tval.keywords) \
             and src(tval.args[0]) in ("self.t", "t"):
@@ -84,44 +136,70 @@ def _within_cell_permutation(fn: FuncInfo, tval: ast.expr) -> Optional[str]:
     if not isinstance(tval, ast.Name):
         return None
     defs = _assigned(fn, tval.id)
-    if len(defs) != 1 or src(defs[0][0].value) != "self.t.copy()":
+    if len(defs) != 1 or src(defs[0][0].value) not in (
+            "self.t.copy()", "np.copy(self.t)", "self.t",
+            "np.array(self.t)"):
         return None
     tn = tval.id
-    loaded: Dict[str, Tuple[str, str]] = {}
-    for n in walk_no_nested(fn.node):
-        if isinstance(n, ast.Assign) and isinstance(n.targets[0], ast.Name) \
-                and isinstance(n.value, ast.Subscript) and \
-                src(n.value.value) == tn and isinstance(
-                    n.value.slice, ast.Tuple) and len(
-                    n.value.slice.elts) == 2:
-            r, c = n.value.slice.elts
-            if isinstance(r, ast.Constant):
-                loaded[n.targets[0].id] = (src(r), src(c))
-    stores = [n for n in walk_no_nested(fn.node) if isinstance(n, ast.Assign)
-              and isinstance(n.targets[0], ast.Subscript)
-              and src(n.targets[0].value) == tn]
-    if not stores:
+    stmts = sorted([n for n in walk_no_nested(fn.node)
+                    if isinstance(n, ast.Assign)
+                    and n.lineno > defs[0][0].lineno],
+                   key=lambda n: n.lineno)
+
+    def load(e):
+        """(rows, selector text) of ``t[rows, sel]``"""
+        if isinstance(e, ast.Subscript) and src(e.value) == tn and \
+                isinstance(e.slice, ast.Tuple) and len(e.slice.elts) == 2:
+            r = _rows(e.slice.elts[0])
+            if r is not None:
+                return r, src(e.slice.elts[1])
         return None
-    sel = None
-    rows_w, rows_r = [], []
-    for s_ in stores:
-        sl = s_.targets[0].slice
-        if not (isinstance(sl, ast.Tuple) and len(sl.elts) == 2
-                and isinstance(sl.elts[0], ast.Constant)
-                and isinstance(s_.value, ast.Name)
-                and s_.value.id in loaded):
+    state: Dict[str, List[int]] = {}     # selector -> current row content
+    tmp: Dict[str, Tuple[List[int], str]] = {}
+    nstores = 0
+    for st in stmts:
+        tg = st.targets[0]
+        if isinstance(tg, ast.Name):
+            ld = load(st.value)
+            if ld is not None:
+                rows, sel = ld
+                cur = state.setdefault(sel, list(range(6)))
+                tmp[tg.id] = ([cur[r] for r in rows], sel)
+            elif tg.id in tmp:
+                del tmp[tg.id]
+            continue
+        if isinstance(tg, ast.Subscript) and src(tg.value) == tn:
+            if not (isinstance(tg.slice, ast.Tuple)
+                    and len(tg.slice.elts) == 2):
+                return None
+            rows = _rows(tg.slice.elts[0])
+            sel = src(tg.slice.elts[1])
+            if rows is None:
+                return None
+            cur = state.setdefault(sel, list(range(6)))
+            if isinstance(st.value, ast.Name) and st.value.id in tmp:
+                vals, vsel = tmp[st.value.id]
+            else:
+                ld = load(st.value)
+                if ld is None:
+                    return None
+                vsel = ld[1]
+                vals = [state.setdefault(vsel, list(range(6)))[r]
+                        for r in ld[0]]
+            if vsel != sel or len(vals) != len(rows):
+                return None
+            for r, v in zip(rows, vals):
+                cur[r] = v
+            nstores += 1
+    if not nstores:
+        return None
+    for sel, cur in state.items():
+        if sorted(cur) != list(range(6)):
             return None
-        r, c = src(sl.elts[0]), src(sl.elts[1])
-        lr, lc = loaded[s_.value.id]
-        if lc != c or (sel is not None and sel != c):
-            return None
-        sel = c
-        rows_w.append(r)
-        rows_r.append(lr)
-    if sorted(rows_w) == sorted(rows_r) and len(set(rows_w)) == len(rows_w):
-        return (f"copy of self.t with rows {sorted(rows_w)} exchanged under "
-                f"the column selector {sel}: a permutation within cells")
-    return None
+    moved = sorted({r for cur in state.values()
+                    for r, v in enumerate(cur) if r != v})
+    return (f"self.t with rows {moved} permuted under the column "
+            f"selector(s) {sorted(state)}: vertices reordered within cells")
 
 
 def _whole_reix(fn: FuncInfo, tval: ast.expr) -> Optional[str]:
@@ -223,7 +301,8 @@ def derived_meshes(model: Model, prefix: str = "skfem/mesh/") -> List[DerivedMes
             if "t" not in kwargs:
                 continue
             dm = DerivedMesh(fn, call, src(call.args[0]), kwargs,
-                             _escapes(fn, call), {})
+                             _escapes(fn, call), {},
+                             {f: _escapes(fn, call, f) for f in TAG_FIELDS})
             just = (_within_cell_permutation(fn, kwargs["t"])
                     or _whole_reix(fn, kwargs["t"]))
             for f in TAG_FIELDS:
@@ -241,4 +320,23 @@ def derived_meshes(model: Model, prefix: str = "skfem/mesh/") -> List[DerivedMes
                 else:
                     dm.verdict[f] = "INHERITED"
             out.append(dm)
+    return out
+
+
+def unsorted_meshes(model: Model, prefix: str = "skfem/"):
+    """calls that build a mesh with the literal ``sort_t=False``:
+    (function, call, does a mesh carrying that flag leave the function)"""
+    out = []
+    for fn in model.all_functions():
+        if not fn.path.startswith(prefix):
+            continue
+        for call in walk_no_nested(fn.node):
+            if not isinstance(call, ast.Call):
+                continue
+            kw = [k for k in call.keywords if k.arg == "sort_t"]
+            if not kw:
+                continue
+            v = kw[0].value
+            if isinstance(v, ast.Constant) and v.value is False:
+                out.append((fn, call, _escapes(fn, call, "sort_t")))
     return out
